@@ -12,9 +12,11 @@ files), stale / garbage leftovers, repeated runs and process environment. Kinds:
                  then a full documented-order pass
     dirty        stale / garbage content in a seeded subset of the 21 outputs, leftover
                  files, optionally a few scripts run out of order; then a full pass
-    double       everything twice
+    double       everything twice (thorough tier, later slots: an earlier complete run in
+                 documented / topological / shuffled order, then the judged pass)
 
-Every history ends with a completed pass (documented order; topological for kind 2).
+Every history ends with a completed pass (documented order; a topological order for kind 2
+and for some thorough-tier double runs).
 Oracle after that pass: the 20 processed files and the combined table in the copy are
 byte-identical to the shipped ones in $VERIF_REPO; the produced combined table passes the
 audit written from the property statement (engine_i.audit_table).
@@ -61,8 +63,8 @@ COMPONENTS = {
 # cost: one pass ~22 s of one core; histories run in parallel (one forked worker each), the
 # scripts of one history sequentially (they share files).
 TIERS = {
-    "quick": {"histories": 16, "budget_s": 140, "timeout": 600, "batch": 16, "shrink_s": 300},
-    "thorough": {"histories": 200, "budget_s": 1000, "timeout": 900, "batch": 16, "shrink_s": 600},
+    "quick": {"histories": 16, "budget_s": 140, "timeout": 600, "batch": 16, "shrink_s": 150},
+    "thorough": {"histories": 200, "budget_s": 1000, "timeout": 900, "batch": 32, "shrink_s": 600},
 }
 
 KIND_CYCLE = ["documented", "topological", "crash", "dirty", "double", "topological", "crash", "dirty"]
@@ -102,9 +104,13 @@ def _crash(rng):
 def generate(seed, h, tier):
     rng = core.Rng(seed, ID, h)
     kind = KIND_CYCLE[h % len(KIND_CYCLE)]
+    if h >= 16 and kind == "documented" and (h // 8) % 5 != 0:
+        # the documented order has only (start x environment) to vary: spend most of the
+        # later "documented" slots of the thorough tier on the richer kinds
+        kind = rng.sub("kind").pick(["topological", "crash", "dirty", "double"])
     spec = {
         "h": h, "kind": kind, "env": dict(DEFAULT_ENV), "start": "shipped", "trace": False,
-        "crashes": [], "garbage": [], "extras": [], "prelude": [], "passes": 1, "order": list(engine_i.DOC_ORDER),
+        "crashes": [], "garbage": [], "extras": [], "prelude": [], "pre_passes": [], "order": list(engine_i.DOC_ORDER),
     }
     if h == 0:
         spec["trace"] = True  # the baseline: documented order, default environment, DAG re-measured
@@ -115,7 +121,23 @@ def generate(seed, h, tier):
     if kind == "topological":
         spec["order"] = engine_i.topological_order(rng.sub("order"))
     elif kind == "double":
-        spec["passes"] = 2
+        if h < 16:
+            spec["pre_passes"] = [list(engine_i.DOC_ORDER)]  # everything twice, as documented
+        else:
+            # leftovers of an earlier complete run in another order (a shuffled order is not
+            # topological: on an empty start some of its scripts fail-stop), then the judged pass
+            r = rng.sub("order")
+            first = r.pick(["documented", "topological", "shuffled", "shuffled"])
+            if first == "documented":
+                pre = list(engine_i.DOC_ORDER)
+            elif first == "topological":
+                pre = engine_i.topological_order(r)
+            else:
+                pre = list(engine_i.DOC_ORDER)
+                r.shuffle(pre)
+            spec["pre_passes"] = [pre]
+            if r.chance(0.3):
+                spec["order"] = engine_i.topological_order(r)
     elif kind == "crash":
         r = rng.sub("faults")
         spec["start"] = r.pick(["shipped", "shipped", "empty"])
@@ -145,7 +167,7 @@ def generate(seed, h, tier):
 # --------------------------------------------------------------------------- execution
 def _distinct_key(spec):
     return core.digest([
-        core.digest(spec["order"]), spec["passes"], spec["start"],
+        core.digest(spec["order"]), [core.digest(o) for o in spec["pre_passes"]], spec["start"],
         [[c["script"], c["tear"], c["ppm"], c["then"]] for c in spec["crashes"]],
         [[g["file"], g["mode"], g["seed"]] for g in spec["garbage"]], spec["extras"], spec["prelude"],
     ])
@@ -222,21 +244,20 @@ def execute(spec):
 
         # ---- complete passes; the last one is judged
         traced = {}
-        for p in range(spec["passes"]):
-            final = p == spec["passes"] - 1
-            for s in spec["order"]:
-                r, _ = run(s, "final" if final else "pass%d" % p, trace=bool(spec.get("trace")) and final)
-                if r["trace"] is not None:
-                    traced[s] = r["trace"]
-                ok = r["rc"] == 0
-                if final:
-                    V.check("final_pass_completes", ok, {"script": s},
-                            lambda: {"script": s, "exit_code": r["rc"], "stderr_tail": r["stderr"][-800:],
-                                     "position_in_pass": spec["order"].index(s)},
-                            "script exits non-zero in the final complete pass")
-                elif not ok:
-                    probes["nonzero_in_earlier_full_pass"] = probes.get("nonzero_in_earlier_full_pass", 0) + 1
-            probes["passes_completed"] += 1
+        for order in spec["pre_passes"]:
+            for s in order:
+                faulty_phase_run(s, "pre_pass")
+            probes["pre_passes_run"] = probes.get("pre_passes_run", 0) + 1
+            fired("earlier_full_run")
+        for s in spec["order"]:
+            r, _ = run(s, "final", trace=bool(spec.get("trace")))
+            if r["trace"] is not None and r["rc"] == 0:  # a failed script did not perform all of its opens
+                traced[s] = r["trace"]
+            V.check("final_pass_completes", r["rc"] == 0, {"script": s},
+                    lambda: {"script": s, "exit_code": r["rc"], "stderr_tail": r["stderr"][-800:],
+                             "position_in_pass": spec["order"].index(s)},
+                    "script exits non-zero in the final complete pass")
+        probes["passes_completed"] += 1
 
         # ---- DAG re-measurement (harness self-test, not a verdict about the repo)
         if traced:
@@ -277,7 +298,7 @@ def execute(spec):
         if stats.get("unclassified_columns"):
             probes["unclassified_columns"] = len(stats["unclassified_columns"])
 
-    nontrivial = [_distinct_key(spec)] if probes["passes_completed"] == spec["passes"] else []
+    nontrivial = [_distinct_key(spec)] if probes["passes_completed"] == 1 else []
     return {
         "violations": [v.to_json() for v in V.violations],
         "evaluations": sum(V.clauses.values()),
@@ -289,7 +310,8 @@ def execute(spec):
         "log_digest": log.digest(),
         "sim_months": 0,
         "aborts": 0,
-        "sample": {"kind": spec["kind"], "start": spec["start"], "env": spec["env"], "passes": spec["passes"],
+        "sample": {"kind": spec["kind"], "start": spec["start"], "env": spec["env"],
+                   "pre_passes": ["documented" if o == engine_i.DOC_ORDER else o for o in spec["pre_passes"]],
                    "order": "documented" if spec["order"] == engine_i.DOC_ORDER else spec["order"],
                    "crashes": spec["crashes"], "garbage": spec["garbage"], "extras": spec["extras"], "prelude": spec["prelude"]},
     }
@@ -333,8 +355,8 @@ def shrink(spec):
     # fall back to the documented order, a single pass, the shipped start, the default environment
     if spec["order"] != engine_i.DOC_ORDER:
         yield variant(order=list(engine_i.DOC_ORDER))
-    if spec["passes"] > 1:
-        yield variant(passes=1)
+    if spec["pre_passes"]:
+        yield variant(pre_passes=[])
     if spec["start"] != "shipped":
         yield variant(start="shipped")
     if spec["env"] != DEFAULT_ENV:
